@@ -74,7 +74,7 @@ Fixpoint minsert (m : meth) (l : list meth) : list meth :=
 Definition msort (l : list meth) : list meth := fold_right minsert [] l.
 
 (* ---------- identity of signatures (types.Identical on *types.Signature) ----------
-   Parameter and result NAMES do not matter; everything else is compared structurally.
+   The NAMES of parameters and results do not matter; everything else is compared structurally.
    Where Go's identity is coarser than structural equality (an alias and its target, the
    method order of an interface literal) the specification answers EConflict, i.e. such
    inputs are outside the theorems; the generator does not produce them. *)
